@@ -23,10 +23,10 @@ META = dict(
     functions_encoded=['version.Parse', '(*Version).UnmarshalText', 'dependency.Parse', 'ParseArch', 'ParseArchitectures', 'control.NewParagraphReader', '(*ParagraphReader).Next',
                        'ParseDsc', 'ParseChanges', 'ParseControl', 'ParseBinaryIndex', 'ParseSourceIndex', 'changelog.Parse', 'changelog.ParseOne'],
     stubs=['as in C03, C05, C07, C10, C17'],
-    bounds={'quick': 'every byte string (all 256 values) of length <= 5 into version.Parse, <= 5 into ParseArch/ParseArchitectures, <= 4 into dependency.Parse, <= 5 into the paragraph reader, <= 4 into changelog.Parse; typed documents: a valid .dsc/.changes/control/Packages/Sources template with one field value (Version, Architecture, Build-Depends, Files, Binary, Installed-Size) replaced by every byte string of length <= 3',
+    bounds={'quick': 'every byte string (all 256 values) of length <= 5 into version.Parse, <= 5 into ParseArch/ParseArchitectures, <= 4 into dependency.Parse, <= 5 into the paragraph reader, <= 4 into changelog.Parse; typed documents: a valid .dsc/.changes/control/Packages/Sources template with one field value (Version, Architecture, Build-Depends, Files, Binary, Installed-Size) replaced by every byte string of length <= 3; each template with a field name repeated in upper, lower and swapped case (exact spelling present or absent)',
             'thorough': 'one more byte everywhere (changelog 6)'},
     outside_claim=['inputs above the bound (the statement says 64 KiB)', 'the race detector itself: concurrency safety is decided by non-interference - on every explored path no package-level variable is written - from which independence of concurrent calls on disjoint inputs follows', 'non-interference on paths not reachable within the bound'],
-    assumptions=['determinism: each harness calls the entry point twice on the same input and compares the outcomes; map iteration order does not occur in these parsers except parseArEntry (C15)'])
+    assumptions=['determinism: each harness calls the entry point twice on the same input and compares the outcomes; the typed-document harness also compares the decoded fields of the two calls; map iteration (none in these parsers on the unchanged tree) is explored in every rotation (chosen per map object, independently in the two calls)'])
 
 
 def jobs(tier):
@@ -46,6 +46,12 @@ def jobs(tier):
         for f in fields:
             for n in range(b['typed'] + 1):
                 js.append(dict(name='typed_%d_%s_%d' % (kind, f.decode(), n), kind='typed', k=kind, field=f, n=n))
+    # field names in other spellings: each kind's template with one key given twice more in two different capitalisations
+    # (and the exact spelling kept or dropped), each with its own value
+    for kind, fields in ((0, [b'Source', b'Binary']), (1, [b'Source', b'Closes']), (2, [b'Maintainer', b'Depends']), (3, [b'Package', b'Tags']), (4, [b'Package', b'Binary'])):
+        for f in fields:
+            for keep in (False, True):
+                js.append(dict(name='case_%d_%s_%d' % (kind, f.decode(), keep), kind='case', k=kind, field=f, keep=keep, n=0))
     js.sort(key=lambda j: -j['n'])
     return js
 
@@ -66,6 +72,25 @@ def run_job(env, job):
         cls = CLS[what] + [bytes(x for x in range(256) if x not in used)]
         assume = [in_set(s[pos], cls[ci]) for pos, ci in enumerate(job['part'])]
         r = run_harness(env, pkg, fn, [s], assume, unwind=4 * n + 60, sample='%s: every byte string of length %d, leading classes %r' % (fn, n, job['part']))
+    elif job['kind'] == 'case':
+        tmpl = TEMPLATES[job['k']]
+        f = job['field']
+        out = ()
+        va, vb = symstr('va', 1), symstr('vb', 1)
+        assume = [in_set(va[0], b'abc'), in_set(vb[0], b'abc')]
+        lines = tmpl.split(b'\n')
+        for i, l in enumerate(lines):
+            if l.startswith(f + b':'):
+                if job['keep']:
+                    out += tuple(l) + (10,)
+                    if i + 1 < len(lines) and lines[i + 1].startswith(b' '):
+                        continue
+                out += tuple(f.upper()) + (58, 32) + tuple(va) + (10,) + tuple(f.lower()) + (58, 32) + tuple(vb) + (10,)
+                out += tuple(f.swapcase()) + (58, 32) + tuple(vb) + tuple(va) + (10,)
+            elif i < len(lines) - 1:
+                out += tuple(l) + (10,)
+        r = run_harness(env, 'control', 'VerifC18Typed', [job['k'], Str(out)], assume, unwind=400, timeout_ms=300000, interp_kw=dict(map_orders='rot1'),
+                        sample='typed document kind %d with the key %s also spelled in upper, lower and swapped case (exact spelling %s), every rotation of the iteration order of every map (one per map and call)' % (job['k'], f.decode(), 'kept' if job['keep'] else 'absent'))
     else:
         tmpl = TEMPLATES[job['k']]
         v = symstr('v', job['n'])
@@ -82,7 +107,7 @@ def run_job(env, job):
                 continue
             if i < len(lines) - 1:
                 out += tuple(l) + (10,)
-        r = run_harness(env, 'control', 'VerifC18Typed', [job['k'], Str(out)], [], unwind=400, timeout_ms=300000,
+        r = run_harness(env, 'control', 'VerifC18Typed', [job['k'], Str(out)], [], unwind=400, timeout_ms=300000, interp_kw=dict(map_orders='rot1'),
                         sample='typed document kind %d with the value of %s replaced by every byte string of length %d' % (job['k'], job['field'].decode(), job['n']))
     gw = [g for g in r.get('global_writes', ())]
     if gw:
